@@ -197,6 +197,20 @@ CHECKS = {
                    "correspondence; partial: the delivery order of errors raised in one instant by "
                    "different tasks is asyncio's - the observed order is the model's input.",
         design_ref="DESIGN.md section 6/C09"),
+    'C06': dict(
+        text="Theorems (Props/C06.v): a successfully handled event of a persistent sync_state block "
+             "leaves exactly the new state under its key and changes nothing else; no write without "
+             "sync_state, none after a handler failure (also not at stop), nothing after a failed "
+             "start, time stamp at a regular stop, entries of vanished blocks removed and edzed-* "
+             "kept; the restore decision (expiration None / <=0 / ts+exp<now / missing time stamp; an "
+             "FSM state whose timer ran out is discarded, otherwise restored with the same ABSOLUTE "
+             "expiration) and their composition crash_restart for every history prefix; link theorem "
+             "agree->monitor. Tie: deep copies of a copying in-memory storage after init, after EVERY "
+             "event a block handled (external or its own timer) and after the stop, compared with "
+             "get_state(); second circuits started from 1..3 of these crash points after a downtime.",
+        technique="Coq proof (storage lemmas, step semantics of the persistence bookkeeping) + "
+                  "differential correspondence and monitor evaluated by vm_compute",
+        design_ref="DESIGN.md section 6/C06"),
 }
 
 NOT_YET = "check not built yet in this round (planned: Coq model + theorems + correspondence, see DESIGN.md section 6)"
